@@ -90,6 +90,9 @@ func goValue(id int) interface{} {
 	}
 }
 
+// GoValue is the Go argument of key / argument id.
+func GoValue(id int) interface{} { return goValue(id) }
+
 var reverse map[interface{}]int
 
 func init() {
